@@ -360,7 +360,33 @@ func (w *world) genHostile() hostile {
 		}
 	}
 	typ := []byte{types.VoteTypePrevote, types.VoteTypePrecommit}[w.rng.Intn(2)]
-	switch k := w.rng.Intn(22); k {
+	switch k := w.rng.Intn(24); k {
+	case 22, 23: // a copy of a vote the receiver already holds, with the signature removed / replaced
+		var held []*types.Vote
+		if rs.Votes != nil {
+			for rr := int64(0); rr <= rs.Round; rr++ {
+				for _, vs := range []*types.VoteSet{rs.Votes.Prevotes(rr), rs.Votes.Precommits(rr)} {
+					if vs == nil {
+						continue
+					}
+					for i := 0; i < w.n; i++ {
+						if v := vs.GetByIndex(i); v != nil {
+							held = append(held, v)
+						}
+					}
+				}
+			}
+		}
+		if len(held) == 0 {
+			return hostile{pbft.VoteChannel, enc(&pbft.VoteMessage{}), "nil vote", false}
+		}
+		cp := *held[w.rng.Intn(len(held))]
+		if k == 22 {
+			cp.Signature = nil
+			return hostile{pbft.VoteChannel, enc(&pbft.VoteMessage{Vote: &cp}), "heldvote copy without signature", true}
+		}
+		cp.Signature = crypto.GenPrivKeyEd25519FromSecret([]byte("c08-forger")).Sign([]byte("something else"))
+		return hostile{pbft.VoteChannel, enc(&pbft.VoteMessage{Vote: &cp}), "heldvote copy with another signature", true}
 	case 0: // random bytes on a random channel
 		b := make([]byte, 1+w.rng.Intn(200))
 		w.rng.Read(b)
